@@ -219,10 +219,12 @@ pub fn generate_live(prop: &str, seed: u64, tier: &str, out: &mut dyn std::io::W
             if prop == "C06" {
                 // the other options that look at the captured copy: skipping (the copy is scanned first) and sanitizing
                 let mut r3 = Rng::for_case(seed, 609, idx);
-                match r3.below(3) {
-                    0 => cfg.principal = Some(*r3.pick(&[t.read_u64(bt.regs_addr + 88), t.desc["shared"].as_u64().unwrap(), t.desc["regions"][0]["addr"].as_u64().unwrap() + 64])),
-                    1 => cfg.sanitize = true,
-                    _ => {}
+                let pick = r3.below(4);
+                if pick == 0 || pick == 3 {
+                    cfg.principal = Some(*r3.pick(&[t.read_u64(bt.regs_addr + 88), t.desc["shared"].as_u64().unwrap(), t.desc["regions"][0]["addr"].as_u64().unwrap() + 64]));
+                }
+                if pick == 1 || pick == 3 {
+                    cfg.sanitize = true; // (both: the rule is evaluated on the copy as read, sanitization comes after it)
                 }
             }
             if prop == "C20" {
@@ -230,6 +232,11 @@ pub fn generate_live(prop: &str, seed: u64, tier: &str, out: &mut dyn std::io::W
                 let mut r3 = Rng::for_case(seed, 610, idx);
                 if r3.chance(1, 2) {
                     cfg.limit = Some(*r3.pick(&[1u64, 200_000]));
+                }
+                // (sanitization as well, in some cases: it would deface pointers into a principal mapping that is not
+                // executable, so the rule has to be evaluated before it)
+                if r3.chance(1, 2) {
+                    cfg.sanitize = true;
                 }
                 // C20: principal mapping = the code the threads block in (every IP is inside) or the
                 // shared page (only referenced through pointers that some threads hold on their stack)
